@@ -18,6 +18,11 @@ STATS = {"pinned": 0}
 
 
 def _pin(sym):
+    import os
+    if os.environ.get("VERIF_FLOATPIN_TRACE"):
+        import traceback
+        with open(os.environ["VERIF_FLOATPIN_TRACE"], "a") as f:
+            f.write("".join(traceback.format_stack(limit=12)) + "\n=====\n")
     space = context_statespace()
     a = sym.var
     cands = []
@@ -69,7 +74,14 @@ def _wrap(name, reflected):
     return method
 
 
+_installed = []
+
+
 def install():
+    if _installed:
+        return
+    _installed.append(1)
+
     def _float(self):
         with NoTracing():
             return float(_pin(self))
